@@ -363,7 +363,8 @@ def check(ctx, facts, cfg):
         live0 = cb.reachable_from(0, removed_edges=cb.const_pruned_edges())     # M1: a helper inlined with a literal flag
         for b, t in cb.calls():
             k = t['callee'].get('key') or ''
-            m = re.match(r'<rate::rate_(high|low)::(High|Low)Rate(En|De)coder<E> as rate::Rate(En|De)coder<E>>::(new|reset|validate)$', k)
+            m = re.match(r'<rate::rate_(high|low)::(High|Low)Rate(En|De)coder<E> as rate::Rate(En|De)coder<E>>::(new|reset|validate)$', k) \
+                or re.match(r'<rate::rate_(high|low)::(High|Low)Rate()()<E> as rate::Rate<E>>::(validate|encoder|decoder)$', k)
             if not m or b not in live0:
                 continue
             n_uses += 1
